@@ -201,6 +201,47 @@ def run_burst(cfg, n=12, tick=TICK):
     return [o if o is not None else ("Hang", int(T * tick * 6000)) for o in out]
 
 
+def run_signals(cfg, tick=TICK, every=0.12):
+    """MAIN THREAD ONLY.  A sync get() against a silent agent while the process handles a signal every `every` seconds (closer than
+    the timeout): whatever an interrupted receive does, the call is over by its deadline.  Returns (result, elapsed_ms)."""
+    import signal
+    from gufo.snmp import SnmpVersion
+    from gufo.snmp.sync_client import SnmpSession
+    from vlib import rawdrv
+    net = rawdrv.next_net()
+    sock, _, host, port = rawdrv.agent_socket(net)
+    ver = {"v1": SnmpVersion.v1, "v2c": SnmpVersion.v2c, "v3": SnmpVersion.v3}[cfg.ver]
+    kw = dict(port=port, community=cfg.community, version=ver, timeout=T * tick, tos=net[2], send_buffer=net[3], recv_buffer=net[4])
+    if cfg.ver == "v3":
+        kw.update(engine_id=cfg.engine, user=apidrv.user_of(cfg))
+    s = SnmpSession(host, **kw)
+    count = [0]
+
+    def handler(signum, frame):
+        count[0] += 1
+    old = signal.signal(signal.SIGALRM, handler)
+    signal.setitimer(signal.ITIMER_REAL, every, every)
+    # bounded: three timeouts' worth of signals, then silence.  (Stopped from another thread: the Python-level handler does not run
+    # while the main thread is inside the extension's receive call.)
+    stopper = threading.Timer(3 * T * tick, lambda: signal.setitimer(signal.ITIMER_REAL, 0, 0))
+    stopper.daemon = True
+    stopper.start()
+    t0 = time.monotonic()
+    try:
+        try:
+            s.get("1.3.6.1.2.1.1.3.0")
+            result = "delivered"
+        except BaseException as e:  # noqa
+            result = type(e).__name__
+        el = time.monotonic() - t0
+    finally:
+        stopper.cancel()
+        signal.setitimer(signal.ITIMER_REAL, 0, 0)
+        signal.signal(signal.SIGALRM, old)
+        sock.close()
+    return result, int(el * 1000)
+
+
 def run_pair(client, cfg, stray_at, second_reply_at):
     """Two requests on ONE session: the first sees a stray at tick `stray_at` and times out; the second is answered at
     tick `second_reply_at` (< T) and must be delivered - whatever the first call left behind."""
@@ -273,8 +314,8 @@ def run_pair(client, cfg, stray_at, second_reply_at):
     return out
 
 
-def event(client, cfgname, strays, match, result, el, tick=TICK):
-    return dict(ev="Timed", client=client, ver=cfgname, T=T, tick_ms=int(tick * 1000), strays=list(strays), match=match, result=result, elapsed_ms=el,
+def event(client, cfgname, strays, match, result, el, tick=TICK, signals=False):
+    return dict(ev="Timed", signals=bool(signals), client=client, ver=cfgname, T=T, tick_ms=int(tick * 1000), strays=list(strays), match=match, result=result, elapsed_ms=el,
                 slack_ms=SLACK_MS, early_ms=EARLY_MS)
 
 
@@ -366,6 +407,11 @@ def run(tier):
     bursts = []
     for cn, n in ([("v2c", 12), ("v3-md5", 10)] if not thorough else [("v2c", 12), ("v2c", 24), ("v1", 12), ("v3-md5", 16)]):
         bursts.append((cn, n, run_burst(std[cn], n)))
+    # signals handled by the process while a sync request is blocked (main thread, after everything else)
+    sigruns = []
+    for cn in (["v2c", "v3-md5"] if not thorough else ["v2c", "v1", "v3-md5"]):
+        for rep in range(2):
+            sigruns.append((cn, run_signals(std[cn])))
     rec = trace.Recorder("c18")
     for c in cases:
         client, cn, (strays, match), tick = c
@@ -387,9 +433,35 @@ def run(tier):
             rec.emit(event("sync", cn, (), 0, *r))
             burst_index[rec.n] = bi
         chk.case(("burst", cn, n), n=n)
+    sig_index = {}
+    for cn, r in sigruns:
+        rec.emit(event("sync", cn, (), 0, *r, signals=True))
+        sig_index[rec.n] = cn
+        chk.case(("signals", cn))
     v = trace.validate("TraceTimeout.tla", "TraceTimeout.cfg", rec.close())
     chk.add_tlc(v["res"], "TraceTimeout")
     chk.traces += len(cases)
+    for f in list(v["fails"]):
+        if f in sig_index:
+            v["fails"].remove(f)
+            cn = sig_index[f]
+            evs = [rec.events[f - 1]]
+            confirmed = True
+            for _ in range(2):
+                r = run_signals(std[cn])
+                e2 = event("sync", cn, (), 0, *r, signals=True)
+                rec2 = trace.Recorder("c18-confirm")
+                rec2.emit(e2)
+                evs.append(e2)
+                if not trace.validate("TraceTimeout.tla", "TraceTimeout.cfg", rec2.close())["fails"]:
+                    confirmed = False
+                    break
+            if confirmed and ("signals", cn) not in chk.extra.setdefault("_sig_reported", []):
+                chk.extra["_sig_reported"].append(("signals", cn))
+                chk.violation(dict(kind="signals", client="sync", result=evs[0]["result"]),
+                              "sync %s get(), timeout %.3f s, silent agent, a signal handled every 0.12 s: %s after %d ms (three runs: %s)" %
+                              (cn, T * TICK, evs[0]["result"], evs[0]["elapsed_ms"], [x["elapsed_ms"] for x in evs]), dict(kind="signals", cfg=cn, runs=evs))
+    chk.extra.pop("_sig_reported", None)
     reported_bursts = set()
     for f in list(v["fails"]):
         if f in burst_index:
@@ -465,6 +537,19 @@ def replay(path):
     r = d["replay"]
     std = scripts.std_cfgs()
     bad = 0
+    if r.get("kind") == "signals":
+        bad = 0
+        for _ in range(3):
+            res = run_signals(std[r["cfg"]])
+            rec = trace.Recorder("c18-replay")
+            rec.emit(event("sync", r["cfg"], (), 0, *res, signals=True))
+            v = trace.validate("TraceTimeout.tla", "TraceTimeout.cfg", rec.close())
+            print(res, "rejected" if v["fails"] else "accepted")
+            bad += 1 if v["fails"] else 0
+        if bad == 3:
+            print("VIOLATION property=C18 replay=%s" % path)
+            return 1
+        return 0
     if r.get("kind") == "burst":
         bad = 0
         for _ in range(3):
